@@ -177,10 +177,17 @@ func (db *DB) Find(dest interface{}, conds ...interface{}) (tx *DB) {
 
 // FindInBatches finds all records in batches of batchSize
 func (db *DB) FindInBatches(dest interface{}, batchSize int, fc func(tx *DB, batch int) error) *DB {
+	tx := db.Order(clause.OrderByColumn{
+		Column: clause.Column{Table: clause.CurrentTable, Name: clause.PrimaryKey},
+	})
+	// conditions given through Scopes are the user's conditions as well: apply them once, before the grouping
+	// below, not after the batch cursor in every batch
+	for len(tx.Statement.scopes) > 0 {
+		tx = tx.executeScopes()
+	}
+	tx = tx.Session(&Session{})
+
 	var (
-		tx = db.Order(clause.OrderByColumn{
-			Column: clause.Column{Table: clause.CurrentTable, Name: clause.PrimaryKey},
-		}).Session(&Session{})
 		queryDB      = tx
 		rowsAffected int64
 		batch        int
